@@ -38,7 +38,7 @@ def run(prog, run):
     run.assume('liveness (two honest agents connect under loss), priority values and datagram pass-through are schedule/numeric claims (not decided)')
     hd = prog.fn(IC + '::handleDatagram')
     atoms = state_atoms(hd)
-    if len(atoms) < 10:
+    if len(atoms) < 8:
         raise AnalysisBroken('C15: only %d state-changing atoms found in handleDatagram' % len(atoms))
     decode_calls = [i for i, n in hd.calls('QXmppStunMessage::decode')]
     if not decode_calls:
@@ -67,7 +67,7 @@ def run(prog, run):
         return evc
 
     r1 = run.rule('C15.R1', 'no connectivity state changes and no response is sent when the keyed decode fails, or when the message is not for a '
-                            'STUN-server transaction and no session password is set', floor=20)
+                            'STUN-server transaction and no session password is set', floor=14)
     for label, evc in (('the keyed decode fails', mk(False, None, None)),
                        ('there is no session password (and no STUN-server transaction)', mk(None, True, True))):
         res = cfgx.sink_reachability(hd, evc, [i for i, _ in atoms])
@@ -181,3 +181,56 @@ def run(prog, run):
         else:
             run.violation(r5, 'connected-emitter#%s' % top_function(prog, f).qname, f.loc(i), 'connected() emitted outside the nominated-pair tail of handleDatagram')
     run.info(r5, hd.loc(), 'fallbackPair is set from non-STUN datagrams (unauthenticated by design; not among the property\'s state list)')
+
+    r6_nomination(prog, run, hd, mk)
+
+
+def r6_nomination(prog, run, hd, mk):
+    rid = run.rule('C15.R6', 'an authenticated USE-CANDIDATE request is honoured whatever state its pair is in: the pair is nominated at once, marked as nominating, '
+                             'or a nominating triggered check is started (necessary for two honest agents to agree on the pair)', floor=5)
+    st_enum = prog.enum('CandidatePair::State', required=False) or prog.enum('QXmppIceComponent::CandidatePair::State', required=False)
+    if not st_enum:
+        cands = [e for e in prog.enums.values() if e['qname'].endswith('CandidatePair::State')] if hasattr(prog, 'enums') else []
+        st_enum = cands[0] if cands else None
+    if not st_enum:
+        raise AnalysisBroken('C15.R6: enum CandidatePair::State not found')
+    sinks = {}
+    for i, n in hd.all_nodes('assign'):
+        l = hd.nodes[hd.skip(n['l'])]
+        if l['k'] == 'mem' and l['f'] == 'CandidatePair::nominated' and hd.const_value(n['r']) == ('bool', True):
+            sinks[i] = 'nominated = true'
+        if l['k'] == 'mem' and l['f'] == 'CandidatePair::nominating' and 'useCandidate' in hd.fmt(n['r'], inline=False):
+            sinks[i] = 'nominating |= useCandidate'
+    for i, n in hd.calls(ICP + '::performCheck'):
+        if len(n['args']) > 1 and 'useCandidate' in hd.fmt(n['args'][1], inline=False):
+            sinks[i] = 'performCheck(pair, … || useCandidate)'
+    for e in st_enum['enumerators']:
+        run.instance(rid)
+        qn = st_enum['qname'].rsplit('::', 1)[0] + '::' + e['name']
+
+        def custom(f, nid, st, qn=qn):
+            n = f.nodes[nid]
+            if n['k'] == 'call' and f.cname(n) == 'QXmppStunMessage::decode':
+                return (True,)
+            if n['k'] == 'call' and f.cname(n).endswith('CandidatePair::state'):
+                return (('enum', qn),)
+            if n['k'] == 'mem' and n['f'] == 'QXmppStunMessage::useCandidate':
+                return (True,)
+            if n['k'] == 'call' and f.cname(n) == 'QString::isEmpty' and n.get('obj') is not None and ('remoteUser' in f.fmt(n['obj'], inline=False) or 'messagePassword' in f.fmt(n['obj'], inline=False)):
+                return (False,)
+            return None
+        ev = cfgx.Evaluator(hd, {}, custom=custom)
+        visits = {}
+        cfgx.explore(hd, (), None, lambda f, c, st: ev.ev(c, st), record_visits=visits)
+        reached = [what for i, what in sinks.items() if hd.pos(i) and hd.pos(i)[0] in visits]
+        # "nominating" is promoted to "nominated" only when the pair's pending check transaction succeeds: a pair that has already
+        # succeeded has no pending transaction, so only an immediate nomination (or a new nominating check) honours the request there
+        if e['name'].startswith('Succeeded'):
+            reached = [w for w in reached if not w.startswith('nominating')]
+        # the case label of this state must exist at all (otherwise the switch would fall through silently)
+        if reached:
+            run.ok(rid, hd.loc(), 'pair in %s: %s' % (e['name'], reached[0]))
+        else:
+            run.violation(rid, 'handleDatagram#nomination-lost#%s' % e['name'], hd.loc(),
+                          'a USE-CANDIDATE request for a pair in %s neither nominates the pair, nor marks it as nominating, nor starts a nominating check: the '
+                          'controlled agent never selects the pair the controlling agent nominated' % e['name'])
